@@ -125,7 +125,7 @@ def loopM (cfg : GenCfg) (sc : LoopScript) (ftext : Val → Bytes) (n : Node) (f
   -- never looped on the empty path)
   let rootMapLoops := (match n with | .map _ _ _ => true | _ => false) && !cfg.loopRootMapSkipped
   if p.isEmpty && !isSliceRoot && !rootMapLoops then ⟨[], .done⟩ else
-  match rootOf f with
+  match rootOfC cfg f with
   | .early => ⟨[], .done⟩
   | .panic => ⟨[], .panic⟩
   | .nilX =>
